@@ -11,6 +11,7 @@ import (
 	"github.com/ethereum/go-ethereum/common"
 	"verif/mc"
 	"verif/scn"
+	"verif/world"
 )
 
 // execScnSeq runs the scenario as a sequence of top-level invocations (join-point switch per invocation) for real
@@ -101,6 +102,16 @@ func c05Judge(s *scn.Scn, r *scn.Run, m *scn.MResult) (sig, detail string) {
 		want, got := firingText(m.Firings[i]), rfiringText(r.Firings[i])
 		if !m.Firings[i].Provider && r.Firings[i].Err != "provider" && r.Firings[i].To != r.Firings[i].Contract {
 			return "firing:to_field", fmt.Sprintf("firing %d: request To=%x, join point of contract %x", i, r.Firings[i].To[16:], r.Firings[i].Contract[16:])
+		}
+		if rf := r.Firings[i]; want == got && !m.Firings[i].Provider && rf.Err != "provider" {
+			// the request's own gas and block fields: the gas the frame has at the join point (what the first Aspect of
+			// the join point is given) and the block the EVM executes in
+			if m.Firings[i].Aspect == 0 && rf.ReqGas != rf.GasIn {
+				return "firing:gas_field", fmt.Sprintf("Aspect execution %d (%s): the request announces %d gas, the frame has %d at the join point", i, got, rf.ReqGas, rf.GasIn)
+			}
+			if rf.Block != world.BlockNumber {
+				return "firing:block_field", fmt.Sprintf("Aspect execution %d (%s): the request announces block %d, the EVM executes in block %d", i, got, rf.Block, world.BlockNumber)
+			}
 		}
 		if want != got {
 			kind := "payload"
@@ -458,7 +469,7 @@ func c10Judge(s *scn.Scn, r *scn.Run, m *scn.MResult) (sig, detail string) {
 	sc := r.Env.EVM.Tracer().StateChanges()
 	names := map[string]bool{}
 	s.Walk(func(f *scn.Frame, static bool, depth int, parent *scn.Frame) {
-		names[scn.JournalName(f.ID, 1)], names[scn.JournalName(f.ID, 2)] = true, true
+		names[scn.JournalName(s.Kid(f.ID), 1)], names[scn.JournalName(s.Kid(f.ID), 2)] = true, true
 	})
 	var sorted []string
 	for name := range names {
